@@ -50,7 +50,6 @@ var c03Exemptions = map[string]string{
 	"(diam/datatype.Address).String|slice[:2]": "same guard as above",
 	"diam.dataValueToString|slice[2:]":         "Address branch of the pretty printer: same invariant as Address.String (decoded non-IP addresses have length ≥ 3)",
 	"diam.dataValueToString|slice[:2]":         "same",
-	"diam.parseAvpTag|slice":                   "operates on struct tags, which are compile-time constants of the calling program, not on wire data",
 }
 
 type c03 struct {
@@ -478,6 +477,20 @@ func (x *c03) dischargeBounds(f *ssa.Function, ins []ssa.Instruction, s residueS
 			} else {
 				why = w
 			}
+		}
+	}
+	// Gtag: slicing / indexing a string that derives from a reflect.StructTag — struct tags are compile-time
+	// constants of the calling program, not wire data (decided by provenance, wherever the code lives)
+	for _, in := range ins {
+		var base ssa.Value
+		switch v := in.(type) {
+		case *ssa.Slice:
+			base = v.X
+		case *ssa.Index:
+			base = v.X
+		}
+		if base != nil && x.fromStructTag(base, 0) {
+			return "Gtag: the operand derives from a reflect.StructTag, a compile-time constant of the calling program, not from wire data", "", shape
 		}
 	}
 	// exemptions
@@ -2318,4 +2331,64 @@ func (x *c03) mapChainBounded(comp []*ssa.Function) string {
 		}
 	}
 	return fmt.Sprintf("chain recursion over the constant map %s (acyclic, longest chain %d): depth ≤ %d regardless of the input", gmap.Name(), longest, longest+2)
+}
+
+// fromStructTag: v is (a conversion, a slice, a trimmed form of) a reflect.StructTag, or a string parameter of an
+// unexported library function that receives such a value at every library call site.
+func (x *c03) fromStructTag(v ssa.Value, depth int) bool {
+	if depth > 6 || v == nil {
+		return false
+	}
+	if flow.TypeIs(v.Type(), "reflect", "StructTag") {
+		return true
+	}
+	switch y := v.(type) {
+	case *ssa.Convert:
+		return x.fromStructTag(y.X, depth+1)
+	case *ssa.ChangeType:
+		return x.fromStructTag(y.X, depth+1)
+	case *ssa.Slice:
+		return x.fromStructTag(y.X, depth+1)
+	case *ssa.Phi:
+		for _, e := range y.Edges {
+			if !x.fromStructTag(e, depth+1) {
+				return false
+			}
+		}
+		return len(y.Edges) > 0
+	case *ssa.Extract:
+		if call, ok := y.Tuple.(*ssa.Call); ok {
+			return x.fromStructTag(call, depth+1)
+		}
+	case *ssa.Call:
+		if o := flow.CalleeObj(y); o != nil && o.Pkg() != nil {
+			switch o.Pkg().Path() {
+			case "strings":
+				if len(y.Call.Args) > 0 {
+					return x.fromStructTag(y.Call.Args[0], depth+1)
+				}
+			case "reflect":
+				if len(y.Call.Args) > 0 && flow.TypeIs(y.Call.Args[0].Type(), "reflect", "StructTag") {
+					return true
+				}
+			}
+		}
+	case *ssa.Parameter:
+		f := y.Parent()
+		if f.Object() != nil && f.Object().Exported() {
+			return false
+		}
+		css := x.c.librarySites(f)
+		if len(css) == 0 {
+			return false
+		}
+		i := paramIndex(f, y)
+		for _, cs := range css {
+			if i >= len(cs.Common().Args) || !x.fromStructTag(cs.Common().Args[i], depth+1) {
+				return false
+			}
+		}
+		return true
+	}
+	return false
 }
